@@ -35,7 +35,7 @@ def obligations(tier):
                     bounds='table %d after the real init: T[a^b] == T[a]^T[b] for every pair of bytes a,b; T[0] == 0' % k, fn=['crc32_init_tables']))
     # L3: tail path, every length 0..7, every incoming crc; alignment = buffer offset 0..7 inside an exact-size heap object
     for ln in range(8):
-        offs = range(8) if not quick else {7: [0, 3], 3: [0, 5]}.get(ln, [0])
+        offs = range(8) if not quick else {7: [0, 3]}.get(ln, [0])
         for off in offs:
             o.append(_e('L3-tail/len%d/off%d' % (ln, off), ['-DMODE=3', '-DLEN=%d' % ln, '-DOFF=%d' % off], {}, timeout=400,
                         bounds='length %d at offset %d of an exact-size heap object, every byte value, every 32-bit incoming crc' % (ln, off)))
@@ -80,12 +80,12 @@ def obligations(tier):
                     backends=('kissat', 'minisat'),
                     bounds='as L5-compose plus == reference CRC of a||b; |a|=%d, |b|=%d; two symbolic bytes (mask 0x%x of a||b), the others fixed constants' % (la, lb, mask)))
     # monolithic: carquet_crc32 on every byte string of length 0..7 (8..12 attempted: no verdict, see OUTSIDE)
-    for ln in ([0, 1, 4, 7] if quick else range(8)):
+    for ln in ([0, 1, 7] if quick else range(8)):
         for off in ([0] if quick or ln == 0 else [0, 1, 2, 3, 4, 5, 6, 7]):
             o.append(_e('mono/len%d/off%d' % (ln, off), ['-DMODE=6', '-DLEN=%d' % ln, '-DOFF=%d' % off], {}, timeout=400,
                         bounds='carquet_crc32 == reference on every byte string of length %d at offset %d' % (ln, off)))
     # loop wiring beyond one block: lengths 8..24 with two symbolic bytes, the rest fixed constants
-    wiring = [(16, 0x8001, 0), (17, 0x10400, 1)] if quick else [(8, 0x81, 0), (9, 0x101, 2), (15, 0x4080, 7), (16, 0x8001, 0), (16, 0x180, 4), (17, 0x10400, 1), (23, 0x400001, 5), (24, 0x800002, 3), (24, 0x18000, 6)]
+    wiring = [(17, 0x10400, 1)] if quick else [(8, 0x81, 0), (9, 0x101, 2), (15, 0x4080, 7), (16, 0x8001, 0), (16, 0x180, 4), (17, 0x10400, 1), (23, 0x400001, 5), (24, 0x800002, 3), (24, 0x18000, 6)]
     for ln, mask, off in wiring:
         o.append(_e('mono-sparse/len%d/m%x/off%d' % (ln, mask, off), ['-DMODE=6', '-DLEN=%d' % ln, '-DOFF=%d' % off, '-DSYMMASK=0x%x' % mask], {}, timeout=400,
                     bounds='carquet_crc32 == reference, length %d at offset %d (%d block(s) + %d tail bytes), two symbolic bytes (mask 0x%x), the others fixed constants' % (ln, off, ln // 8, ln % 8, mask)))
